@@ -70,6 +70,10 @@ def dstate_code(o) -> int:
         return 3
     if st == 'INITIALIZING' and o.get('exc') is None:
         return 4
+    if st == 'QUEUED' and o.get('exc') is None and not o.get('wire'):
+        return 5 if o.get('reply_allowed') == [True] else (6 if o.get('reply_allowed') == [False] else 99)
+    if o.get('reply_allowed') == [False] and not o.get('wire') and st in ('INCOMPLETE', 'FAILED') and o.get('exc') is None:
+        return 6     # refused: the transfer is left as it was
     return 99
 
 
@@ -80,7 +84,7 @@ def run_dchain(side: H.Side, desc: dict):
     Returns (attempts, findings): attempts = list of dicts for the Coq comparison."""
     src = pat(*desc['src']) if desc.get('src') else None
     local0 = sl(desc['local0']) if desc.get('local0') is not None else None
-    tr = side.new_download(local0)
+    tr = side.new_download(local0, desc.get('bt0'))
     attempts = []
     findings = []
     lspecs = [list(desc['local0'])] if desc.get('local0') is not None else []
@@ -158,7 +162,8 @@ def run_dchain(side: H.Side, desc: dict):
             attempts.append({
                 'a': announced, 'ok': s.get('ok', True), 'spec': spec, 'term': o['term'] if o['wire'] else snd[2],
                 'grant': H.GRANT_UNLIMITED if s.get('kbps', 0) == 0 else H.GRANT_LIMITED, 'segs': o['segs'],
-                'exp': (dstate_code(o), (struct.unpack('<Q', o['wire'])[0] if len(o['wire']) == 8 else None), o['wire'], o['bt'], o['reads'], list(lspecs)),
+                'exp': (dstate_code(o), (struct.unpack('<Q', o['wire'])[0] if len(o['wire']) == 8 else None), o['wire'],
+                        (-1 if dstate_code(o) == 6 else o['bt']), o['reads'], list(lspecs)),
                 'state': o['state'],
             })
             if dstate_code(o) in (3, 4, 99):
@@ -180,6 +185,8 @@ def ustate_code(o) -> int:
         return 3
     if st == 'UPLOADING' and o['exc'] is not None:
         return 4
+    if st == 'FAILED' and o['fail_reason'] == 'File read error.':
+        return 5
     return 99
 
 
@@ -317,7 +324,7 @@ def coq_dcases(rows):
         ss = []
         for a in atts:
             st, off, wire, bt, reads, lsp = a['exp']
-            exp = f'({st}, {optz(off)}, {zlist(list(wire))}, {bt}, {rle(reads)}, [{"; ".join(spec_(x) for x in lsp)}])'
+            exp = f'({st}, {optz(off)}, ({len(wire)}, {int.from_bytes(wire, "little")}), {bt}, {rle(reads)}, [{"; ".join(spec_(x) for x in lsp)}])'
             ss.append(f'({optz(a["a"])}, {"true" if a["ok"] else "false"}, {spec_(a["spec"])}, {TCODE[a["term"]]}, {a["grant"]}, {zlist(a["segs"])}, {exp})')
         pats = [tuple(a['spec'][:2]) for a in atts] + ([tuple(l0[:2])] if l0 is not None else [])
         main = max(set(pats), key=lambda x: (pats.count(x), x[1]))
@@ -388,7 +395,7 @@ def gen_dchains(run: Run):
             for kind in ('reset', 'eof'):
                 chains.append(('cut-all', honest_chain(rng, n, [(kind, k)])))
     # large sizes: boundary and random cuts, one or two faults
-    ncut = 6 if run.tier == 'quick' else 40
+    ncut = 3 if run.tier == 'quick' else 40
     for n in LARGE:
         pool = [0, 1, 127, 128, 129, 8191, 8192, 8193, 16384, n - 1, n]
         for _ in range(ncut):
@@ -398,14 +405,33 @@ def gen_dchains(run: Run):
                 faults.append((rng.choice(['reset', 'eof', 'reset']), min(k, n)))
             chains.append(('cut-large', honest_chain(rng, n, faults)))
     # repeated faults on small and medium sizes, resumed local files (also already complete ones)
-    nrep = 60 if run.tier == 'quick' else 600
+    nrep = 30 if run.tier == 'quick' else 600
     for _ in range(nrep):
         n = rng.choice(SMALL + [300, 1000, 8191, 8193])
         faults = [(rng.choice(['reset', 'eof', 'timeout']), rng.randrange(0, n + 1)) for _ in range(rng.randrange(0, 5))]
         l0 = rng.choice([None, None, 0, n, rng.randrange(0, n + 1)])
         chains.append(('repeat', honest_chain(rng, n, faults, local0_len=l0)))
+    # a progress counter that disagrees with the file on disk (cache written mid-transfer then a restart;
+    # a chunk written while the task was being cancelled): the offset must still be the FILE size
+    for n, l0, bt0 in [(129, 64, 10), (129, 64, 200), (8193, 8192, 128), (300, 300, 7), (300, 0, 5), (129, 100, 129)]:
+        c = honest_chain(rng, n, [('reset', 20)], local0_len=l0)
+        c['bt0'] = bt0
+        chains.append(('stale-counter', c))
+    for _ in range(6 if run.tier == 'quick' else 60):
+        n = rng.choice([129, 300, 8193])
+        l0 = rng.randrange(0, n + 1)
+        c = honest_chain(rng, n, [(rng.choice(['reset', 'eof']), rng.randrange(0, n + 1))], local0_len=l0)
+        c['bt0'] = rng.choice([1, l0 // 2 + 1, l0 + 1, n, n + 3])
+        chains.append(('stale-counter', c))
+    # surplus bytes in the SAME read as the last legitimate bytes (and in a later read)
+    for n, l0n, extra, kbps in [(1, None, 1, 0), (128, None, 5, 20), (128, 100, 1, 0), (300, 0, 8192, 0), (8192, None, 1, 0), (200, 72, 3, 20),
+                                (129, 1, 127, 20)]:
+        k = n - (l0n or 0) + extra
+        for segs in ([k], [n - (l0n or 0), extra]):
+            chains.append(('dishonest-more', {'src': None, 'local0': ([11, max(l0n, 1), 0, l0n] if l0n is not None else None),
+                                             'sessions': [{'a': n, 'ok': True, 'kbps': kbps, 'sender': ['raw', [29, k + 3, 1, k], 'timeout'], 'segs': segs}]}))
     # dishonest senders
-    ndis = 120 if run.tier == 'quick' else 1200
+    ndis = 50 if run.tier == 'quick' else 1200
     for _ in range(ndis):
         n = rng.choice([0, 1, 2, 127, 128, 129, 300, 8192, 8193])
         seed = rng.randrange(0, 251)
@@ -453,7 +479,7 @@ def gen_ucases(run: Run):
             off = rng.choice([0, 0, n // 3])
             out.append({'src': [rng.randrange(251), n], 'fsz': 'src', 'off': off, 'kbps': gen_kbps(rng), 'cut': cut, 'pc': rng.random() < 0.8,
                         'close': 'eof'})
-    nrand = 40 if run.tier == 'quick' else 400
+    nrand = 30 if run.tier == 'quick' else 400
     for _ in range(nrand):
         n = rng.choice(SIZES + [300, 1000])
         kind = rng.choice(['nooffset', 'partial', 'bigoff', 'wrongsize', 'stuck', 'rand'])
@@ -477,14 +503,14 @@ def gen_pairs(run: Run):
     rng = run.rng
     out = []
     # fault-free, all sizes
-    for n in SIZES:
+    for n in (SIZES if run.tier != 'quick' else [0, 1, 129, 8192, 3 * 8192 + 5]):
         out.append({'src': [rng.randrange(251), n], 'faults': [], 'kbps_down': rng.choice([0, 0, 50]), 'kbps_up': rng.choice([0, 0, 50])})
     # resumed local file (as after a restart), also already complete
-    for n in [1, 129, 8193]:
+    for n in ([1, 129, 8193] if run.tier != 'quick' else [129]):
         for l0 in sorted({0, n // 2, n}):
             out.append({'src': [rng.randrange(251), n], 'faults': [], 'local0': l0})
     # cuts
-    ncut = 24 if run.tier == 'quick' else 200
+    ncut = 12 if run.tier == 'quick' else 200
     for _ in range(ncut):
         n = rng.choice([1, 129, 8193, 3 * 8192 + 5, 3 * 8192 + 5])
         nf = rng.choice([1, 1, 2, 3])
@@ -535,11 +561,32 @@ def run(run: Run):
                         'only this client writes the local download file',
                         'offsets in [2^44, 2^63) (beyond the file system limit, where read() fails with OSError) are not modelled',
                         'the order of control messages vs. the file connection is explored by the pair runs only (partial for that quantifier)']
+    import asyncio
+    import threading
     import time as _time
     from vlib.common import log
     _t0 = _time.time()
-    proved = run.prove([])
-    log(f'[C04] prove {_time.time()-_t0:.1f}s')
+    # the Coq build runs beside the implementation runs (both only wait for each other at the join)
+    # Stage 1 (beside the single-side runs): regenerate gen/C04Gen.v and build Props.vo, so that the
+    # model can be evaluated.  Stage 2 (beside the evaluation and the pair runs): run.prove = the same
+    # build again (no-op) + lint + Print Assumptions, which records the obligations.
+    def build_first():
+        try:
+            from vlib import common as _c
+            _c.build(['tr_c04'], ['theories/C04/Props.vo'])
+        except BrokenTie:
+            pass                      # reported by run.prove below
+        except Exception as e:        # never fail open
+            run.add_broken('build crashed', f'{type(e).__name__}: {e}')
+
+    def prove():
+        try:
+            run.prove(['tr_c04'])
+        except Exception as e:        # never fail open
+            run.add_broken('prove crashed', f'{type(e).__name__}: {e}')
+
+    builder = threading.Thread(target=build_first)
+    builder.start()
 
     side = H.Side()
     try:
@@ -587,11 +634,15 @@ def run(run: Run):
         side.close()
 
     log(f'[C04] single-side runs done {_time.time()-_t0:.1f}s')
+    builder.join()
+    log(f'[C04] build done {_time.time()-_t0:.1f}s')
+    prover = threading.Thread(target=prove)
+    prover.start()
     # 4. model vs implementation
     # few, large shards: every coqc process pays the start-up of the standard library once
     texts, index = [], []
 
-    def shards(rows, render, weight, limit=150000, maxn=400):
+    def shards(rows, render, weight, limit=70000, maxn=400):
         cur, size = [], 0
         for r in rows:
             w = weight(r)
@@ -611,33 +662,38 @@ def run(run: Run):
         texts.append(t)
         index.append('u')
     run.cov['coq_case_files'] = len(texts)
-    nbad = 0
-    try:
-        outs = coq_eval_many('c04', texts, timeout=600)
-        for kind, out in zip(index, outs):
-            bad = parse_bad(out)
-            if bad is None:
-                raise BrokenTie('correspondence:C04', 'no output from a shard')
-            for b in bad:
-                nbad += 1
-                if nbad <= 3:
-                    if kind == 'd':
-                        cid, k = b[0], b[1]
-                        row = next(r for r in drows if r[0] == cid)
-                        att = row[2][k]
-                        run.add_broken('correspondence:C04 download_session vs _initialize_download/_download_file/receive_file',
-                                       f'case {chains[cid][0]} {chains[cid][1]} attempt {k}: impl (state,offset,wire,bt,reads,file)={att["exp"][0:2] + att["exp"][3:5]} '
-                                       f'model (state,bt,len)={b[2:]}')
-                    else:
-                        cid = b[0]
-                        att = next(r for r in urows if r[0] == cid)[1]
-                        run.add_broken('correspondence:C04 upload_session vs _initialize_upload/_upload_file/send_file',
-                                       f'case {ucases[cid]}: impl (state,wire,bt,failmsg)={att["exp"]} model (state,bt,len)={b[1:]}')
-        run.cov['traces_validated_against_impl'] = sum(len(r[2]) for r in drows) + len(urows) - nbad
-    except BrokenTie as e:
-        run.add_broken(e.obligation, e.detail)
+    def evaluate():
+        nbad = 0
+        try:
+            outs = coq_eval_many('c04', texts, timeout=600)
+            for kind, out in zip(index, outs):
+                bad = parse_bad(out)
+                if bad is None:
+                    raise BrokenTie('correspondence:C04', 'no output from a shard')
+                for b in bad:
+                    nbad += 1
+                    if nbad <= 3:
+                        if kind == 'd':
+                            cid, k = b[0], b[1]
+                            row = next(r for r in drows if r[0] == cid)
+                            att = row[2][k]
+                            run.add_broken('correspondence:C04 download_session vs _initialize_download/_download_file/receive_file',
+                                           f'case {chains[cid][0]} {chains[cid][1]} attempt {k}: impl (state,offset,wire,bt,reads,file)={att["exp"][0:2] + att["exp"][3:5]} '
+                                           f'model (state,bt,len)={b[2:]}')
+                        else:
+                            cid = b[0]
+                            att = next(r for r in urows if r[0] == cid)[1]
+                            run.add_broken('correspondence:C04 upload_session vs _initialize_upload/_upload_file/send_file',
+                                           f'case {ucases[cid]}: impl (state,wire,bt,failmsg)={att["exp"]} model (state,bt,len)={b[1:]}')
+            run.cov['traces_validated_against_impl'] = sum(len(r[2]) for r in drows) + len(urows) - nbad
+        except BrokenTie as e:
+            run.add_broken(e.obligation, e.detail)
+        except Exception as e:   # never fail open
+            run.add_broken('correspondence:C04 evaluation crashed', f'{type(e).__name__}: {e}')
 
-    log(f'[C04] coq evaluation done {_time.time()-_t0:.1f}s')
+    evaluator = threading.Thread(target=evaluate)
+    evaluator.start()
+
     # 5. two real clients
     for desc in gen_pairs(run):
         try:
@@ -649,6 +705,9 @@ def run(run: Run):
             run.add_finding(f)
         run.case(desc, nontrivial=bool(desc.get('faults')) or desc['src'][1] > 8192, kind='pair')
         run.count('pair:' + snap['dl'] + '/' + str(snap['up']))
+    evaluator.join()
+    prover.join()
+    log(f'[C04] coq evaluation joined {_time.time()-_t0:.1f}s')
     if unhandled:
         run.notes.append('unhandled task exceptions seen by the loop (single side): ' + '; '.join(sorted(set(unhandled))[:5]))
 
